@@ -1,6 +1,7 @@
 package main
 
 import (
+	"encoding/json"
 	"fmt"
 	"os"
 	"path/filepath"
@@ -18,7 +19,85 @@ import (
 	"go.etcd.io/bbolt"
 )
 
-func init() { register("C06", "fault_enumeration", runC06) }
+func init() {
+	register("C06", "fault_enumeration", runC06)
+	workers["c06-classify"] = workerC06Classify
+}
+
+// c06Probes rebuilds rows and probe set of a dataset deterministically (shared by the orchestrator and the
+// classification child).
+func c06Probes(d c06Data, seedKey string, seed int64) ([]oracle.Row, []probe) {
+	csv := gen.CSVWithValues(d.rows, d.vals)
+	rows := csv.Rows()
+	gds := &gen.Dataset{ID: d.id, Rows: rows}
+	gds.Index()
+	h := vf.NewDetachedRNG(seed, "C06", seedKey)
+	return rows, probeSet(h, gds, 300, 10)
+}
+
+// workerC06Classify opens a post-crash file in a process of its own, so that a crash of OpenIndex or of a query on
+// a damaged file (SIGSEGV/SIGBUS on a truncated mmap, a bbolt page assertion) is attributed to that file.
+// args: path id rows vals(comma separated) seed
+func workerC06Classify(args []string) int {
+	var d c06Data
+	d.id = args[1]
+	fmt.Sscan(args[2], &d.rows)
+	for _, x := range strings.Split(args[3], ",") {
+		var v int
+		fmt.Sscan(x, &v)
+		d.vals = append(d.vals, v)
+	}
+	var seed int64
+	fmt.Sscan(args[4], &seed)
+	rows, ps := c06Probes(d, "probes/"+d.id, seed)
+	r := vf.NewQuietRun("C06") // no scratch directory, no output: the verdict goes to the parent as JSON
+	cls := classifyOutput(r, "child", args[0], ps, rows, nil)
+	out, _ := json.Marshal(map[string]any{"class": cls, "violations": r.TakeViolations()})
+	fmt.Println(string(out))
+	return 0
+}
+
+// classifyInChild runs classifyOutput in a child process and turns a crash of that child into a violation.
+func classifyInChild(r *vf.Run, caseID, path string, d c06Data, ctx map[string]any) string {
+	if _, err := os.Stat(path); err != nil {
+		return "absent"
+	}
+	var vals []string
+	for _, v := range d.vals {
+		vals = append(vals, fmt.Sprint(v))
+	}
+	res := runChild(r, binPath("vcheck"), []string{"worker", "c06-classify", path, d.id, fmt.Sprint(d.rows), strings.Join(vals, ","), fmt.Sprint(r.Seed)}, childOpts{Timeout: 5 * time.Minute})
+	w := map[string]any{"file": filepath.Base(path)}
+	for k, v := range ctx {
+		w[k] = v
+	}
+	if res.TimedOut {
+		hangVerdict(r, caseID, res, w)
+		return "hang"
+	}
+	var out struct {
+		Class      string           `json:"class"`
+		Violations []map[string]any `json:"violations"`
+	}
+	if res.Code != 0 || json.Unmarshal([]byte(res.Stdout), &out) != nil {
+		w["exit_code"], w["signal"], w["stderr"] = res.Code, res.Signal.String(), tail(res.Stderr, 5000)
+		w["explanation"] = "opening or querying the post-crash file took the process down"
+		r.Violation(caseID, "open-or-query-crashes-on-post-crash-file", w)
+		return "crash"
+	}
+	for _, v := range out.Violations {
+		kind, _ := v["kind"].(string)
+		det, _ := v["detail"].(map[string]any)
+		for k, x := range ctx {
+			if det == nil {
+				det = map[string]any{}
+			}
+			det[k] = x
+		}
+		r.Violation(caseID, kind, det)
+	}
+	return out.Class
+}
 
 // classifyOutput decides what a post-crash output path is: absent, rejected
 // (OpenIndex returned an error), accepted-and-correct, or a violation.
@@ -212,10 +291,6 @@ func c06KillAt(r *vf.Run) {
 			continue
 		}
 		csv := gen.CSVWithValues(d.rows, d.vals)
-		rows := csv.Rows()
-		gds := &gen.Dataset{ID: d.id, Rows: rows}
-		gds.Index()
-		ps := probeSet(r.RNG("probes/"+d.id), gds, 300, 10)
 		for _, big := range []bool{false, true} {
 			mode := "normal"
 			if big {
@@ -260,7 +335,7 @@ func c06KillAt(r *vf.Run) {
 				continue
 			}
 			r.Eval(1)
-			if cls := classifyOutput(r, cid+"/full", full, ps, rows, map[string]any{"engine": "cli-full-run", "mode": mode}); cls != "accepted-complete" && cls != "wrong" && cls != "panic" {
+			if cls := classifyInChild(r, cid+"/full", full, d, map[string]any{"engine": "cli-full-run", "mode": mode}); cls != "accepted-complete" && cls != "wrong" && cls != "panic" && cls != "crash" {
 				r.Violation(cid+"/full", "final-not-accepted", map[string]any{"class": cls})
 			}
 			for n := 1; n <= len(points)+1; n++ {
@@ -287,7 +362,7 @@ func c06KillAt(r *vf.Run) {
 					}
 				}
 				r.Eval(1)
-				cls := classifyOutput(r, kid, out, ps, rows, map[string]any{"engine": "cli-sigkill-at-commit", "mode": mode, "dataset": d.id, "killed_at": site, "points_in_full_run": len(points)})
+				cls := classifyInChild(r, kid, out, d, map[string]any{"engine": "cli-sigkill-at-commit", "mode": mode, "dataset": d.id, "killed_at": site, "points_in_full_run": len(points)})
 				r.Count("class_"+cls, 1)
 				r.Count("cli_kills_"+mode, 1)
 				r.Distinct(kid)
@@ -298,7 +373,7 @@ func c06KillAt(r *vf.Run) {
 }
 
 var straceKilled = regexp.MustCompile(`\+\+\+ killed by SIGKILL \+\+\+`)
-var straceCall = regexp.MustCompile(`^(\d+)\s+(pwrite64|fdatasync|ftruncate|fsync|write)\(`)
+var straceCall = regexp.MustCompile(`^(\d+)\s+(pwrite64|pwritev|writev|copy_file_range|sendfile|fdatasync|ftruncate|fsync|write|rename|renameat|renameat2)\(`)
 
 // engine 3: syscall-granularity SIGKILL of the plain CLI through strace fault injection
 func c06Strace(r *vf.Run) {
@@ -310,7 +385,19 @@ func c06Strace(r *vf.Run) {
 		d   c06Data
 		big bool
 	}
-	cases := []sc{{c06Data{"v2500", 2500, []int{2500}}, false}, {c06Data{"r3100", 3100, []int{13, 5}}, true}}
+	cases := []sc{{c06Data{"v2500", 2500, []int{2500}}, false}, {c06Data{"r3100", 3100, []int{13, 5}}, true},
+		// several MiB of index data (a copy or compaction of the finished file would need several transactions / many writes)
+		{c06Data{"large", 90000, []int{90000, 30000, 7000, 500, 40, 3}}, false}, {c06Data{"large", 90000, []int{90000, 30000, 7000, 500, 40, 3}}, true}}
+	if r.Thorough() {
+		cases = append(cases, sc{c06Data{"v1001", 1001, []int{1001}}, false}, sc{c06Data{"r2001", 2001, []int{1500, 3}}, true})
+	}
+	// the CLI's temporary directory on another file system than the output (rename across file systems is a copy)
+	otherFS := filepath.Join(vf.Root(), ".scratch", fmt.Sprintf("c06-tmp-%d", os.Getpid()))
+	if err := os.MkdirAll(otherFS, 0o755); err == nil {
+		defer os.RemoveAll(otherFS)
+	} else {
+		otherFS = ""
+	}
 	for _, c := range cases {
 		mode := "normal"
 		if c.big {
@@ -322,25 +409,21 @@ func c06Strace(r *vf.Run) {
 		}
 		r.Progress(cid)
 		csv := gen.CSVWithValues(c.d.rows, c.d.vals)
-		rows := csv.Rows()
-		gds := &gen.Dataset{ID: c.d.id, Rows: rows}
-		gds.Index()
-		ps := probeSet(r.RNG("probes/"+c.d.id), gds, 300, 10)
 		dir := filepath.Join(r.Scratch, "strace-"+c.d.id+"-"+mode)
 		mustMkdir(dir)
 		in := filepath.Join(dir, "in.csv")
 		_ = os.WriteFile(in, []byte(csv.Text), 0o644)
 		run := func(n int, out, log string) childResult {
-			args := []string{"-f", "-o", log, "-e", "trace=pwrite64,fdatasync,ftruncate,fsync"}
+			args := []string{"-f", "-o", log, "-e", "trace=pwrite64,pwritev,write,writev,copy_file_range,sendfile,fdatasync,ftruncate,fsync,rename,renameat,renameat2"}
 			if n > 0 {
-				args = append(args, "-e", fmt.Sprintf("inject=pwrite64,fdatasync,ftruncate:signal=KILL:when=%d", n))
+				args = append(args, "-e", fmt.Sprintf("inject=pwrite64,pwritev,write,writev,copy_file_range,sendfile,fdatasync,ftruncate,rename,renameat,renameat2:signal=KILL:when=%d", n))
 			}
 			args = append(args, binPath("updog"), "create", "-o", out)
 			if c.big {
 				args = append(args, "-b")
 			}
 			args = append(args, in)
-			return runChild(r, "/usr/bin/strace", args, childOpts{Timeout: 3 * time.Minute})
+			return runChild(r, "/usr/bin/strace", args, childOpts{Timeout: 5 * time.Minute, TmpDir: otherFS})
 		}
 		// full run: how many I/O syscalls are there?
 		flog := filepath.Join(dir, "full.strace")
@@ -353,7 +436,7 @@ func c06Strace(r *vf.Run) {
 		total := 0
 		perThread := map[string]int{}
 		for _, line := range strings.Split(string(fb), "\n") {
-			if m := straceCall.FindStringSubmatch(line); m != nil && m[2] != "fsync" && m[2] != "write" {
+			if m := straceCall.FindStringSubmatch(line); m != nil && m[2] != "fsync" {
 				total++
 				perThread[m[1]]++
 			}
@@ -372,14 +455,23 @@ func c06Strace(r *vf.Run) {
 		// sweep when=N (N counts per thread); quick: a spread of positions, thorough: all
 		var ns []int
 		if r.Thorough() {
-			for n := 1; n <= maxPer+1; n++ {
+			step := 1
+			if maxPer > 400 {
+				step = maxPer / 400 // large runs: 400 positions spread over the whole run
+			}
+			for n := 1; n <= maxPer+1; n += step {
 				ns = append(ns, n)
 			}
 		} else {
-			step := maxPer/10 + 1
+			want := 10
+			if c.d.id == "large" {
+				want = 8
+			}
+			step := maxPer/want + 1
 			for n := 1; n <= maxPer; n += step {
 				ns = append(ns, n)
 			}
+			ns = append(ns, maxPer) // the last I/O call of the busiest thread
 		}
 		var mu sync.Mutex
 		var ids []string
@@ -403,7 +495,7 @@ func c06Strace(r *vf.Run) {
 			// the real kill position = number of I/O syscalls that completed before the kill
 			pos := 0
 			for _, line := range strings.Split(string(lb), "\n") {
-				if m := straceCall.FindStringSubmatch(line); m != nil && m[2] != "fsync" && m[2] != "write" && !strings.Contains(line, "unfinished") {
+				if m := straceCall.FindStringSubmatch(line); m != nil && m[2] != "fsync" && !strings.Contains(line, "unfinished") {
 					pos++
 				}
 			}
@@ -415,7 +507,7 @@ func c06Strace(r *vf.Run) {
 				r.Cover("strace_kill_positions", fmt.Sprintf("%s@%d", mode, pos))
 				mu.Unlock()
 			}
-			cls := classifyOutput(r, id, out, ps, rows, map[string]any{"engine": "strace-sigkill", "mode": mode, "dataset": c.d.id, "when": n, "io_syscalls_before_death": pos, "io_syscalls_in_full_run": total, "killed": killed})
+			cls := classifyInChild(r, id, out, c.d, map[string]any{"engine": "strace-sigkill", "mode": mode, "dataset": c.d.id, "when": n, "io_syscalls_before_death": pos, "io_syscalls_in_full_run": total, "killed": killed, "cli_tmpdir_on_other_filesystem": otherFS != ""})
 			r.Count("class_"+cls, 1)
 			r.Count("strace_kills_"+mode, 1)
 			r.Distinct(fmt.Sprintf("%s@%d", id, pos))
